@@ -504,9 +504,16 @@ func ParentMain(id, tier string, seed int64) int {
 		}
 		merged.HarnessErr = append(merged.HarnessErr, p.HarnessErr...)
 	}
+	seenHE := map[string]int{}
 	for _, h := range merged.HarnessErr {
-		fmt.Fprintf(os.Stderr, "HARNESS-ERROR %s\n", h)
 		harness = true
+		if len(h) > 700 {
+			h = h[:700] + "…"
+		}
+		seenHE[h]++
+		if seenHE[h] == 1 && len(seenHE) <= 3 {
+			fmt.Fprintf(os.Stderr, "HARNESS-ERROR %s\n", h)
+		}
 	}
 
 	// classify violations
